@@ -48,6 +48,7 @@ Local Notation st_of := (st_of dstate).
 Local Notation eos_at := (eos_at eos).
 Local Notation done_of := (done_of eos fin_all).
 Local Notation pfin := (pfin eos).
+Local Notation pad_row := (pad_row pad).
 
 (* ---- the view of a slot the caller may rely on, and the abstraction ------------------ *)
 Definition vslot (sl : slot) : list Z * score := (vpath sl, sc sl).
@@ -152,8 +153,25 @@ Qed.
 Lemma done_of_pos t (slots : list slot) : done_of t slots = true -> t <> 0.
 Proof. intros H ->. rewrite done_of_0 in H. discriminate. Qed.
 
-Definition next_hS (h : nat) (grow : bool) : nat :=
-  match h with 0 => 1 | S _ => if grow then S h else h end.
+Definition next_hS (h : nat) (grow : bool) : nat := next_height h grow.
+
+Lemma next_hS_eq h grow : next_hS h grow = match h with 0 => 1 | S _ => S h end.
+Proof.
+  unfold next_hS, next_height, adv_height. destruct h as [|h]; [reflexivity|].
+  destruct grow.
+  - replace (S (S h) =? S h) with false; [reflexivity|]. symmetry. apply Nat.eqb_neq. lia.
+  - now rewrite Nat.eqb_refl.
+Qed.
+
+(* whether forward() appends the pad row after beam_search_advance *)
+Definition padded (h : nat) (grow : bool) : bool := adv_height h grow =? h.
+
+Lemma padded_eq h grow : padded h grow = negb (h =? 0) && negb grow.
+Proof.
+  unfold padded, adv_height. destruct h as [|h]; [reflexivity|]. destruct grow; cbn [negb andb Nat.eqb].
+  - apply Nat.eqb_neq. lia.
+  - apply Nat.eqb_refl.
+Qed.
 
 (* ---- one element, one step --------------------------------------------------------------- *)
 Section Elem.
@@ -298,17 +316,25 @@ Let innext := in_next t b.
 Let adv := advance1 topk V width (hS b) true grow (map (clamp_slot V) slots) (logp_of t b n).
 
 (* the new concrete slot / state made from candidate i *)
+Definition cext (i : nat) : slot :=
+  ext_slot (hS b) true grow (clamp_slot V (nth (i / V) slots dslot)) (Z.of_nat (i mod V)) (nth i cs None).
 Definition cnew (i : nat) : slot :=
-  let e := ext_slot (hS b) true grow (clamp_slot V (nth (i / V) slots dslot)) (Z.of_nat (i mod V)) (nth i cs None) in
+  let e := pad_row (hS b) grow (cext i) in
   mkSlot (col e) (len e - (if eos_at t (nth (i / V) slots dslot) then 1 else 0)) (sc e).
-Definition cpad : slot := mkSlot (repeat 0%Z (hS b + 1)) 0 None.
+Definition cpad0 : slot := mkSlot (repeat 0%Z (hS b + 1)) 0 None.
+Definition cpad : slot := pad_row (hS b) grow cpad0.
 
-Lemma adv_fst : fst adv = map (fun i => ext_slot (hS b) true grow (clamp_slot V (nth (i / V) slots dslot))
-                                   (Z.of_nat (i mod V)) (nth i cs None)) ind
-                          ++ repeat cpad (width - K).
+Lemma pad_row_len sl : len (pad_row (hS b) grow sl) = len sl.
+Proof. unfold Model.pad_row. now destruct (adv_height (hS b) grow =? hS b). Qed.
+Lemma pad_row_sc sl : sc (pad_row (hS b) grow sl) = sc sl.
+Proof. unfold Model.pad_row. now destruct (adv_height (hS b) grow =? hS b). Qed.
+Lemma pad_row_col sl : col (pad_row (hS b) grow sl) = if padded (hS b) grow then col sl ++ [pad] else col sl.
+Proof. unfold Model.pad_row, padded. now destruct (adv_height (hS b) grow =? hS b). Qed.
+
+Lemma adv_fst : fst adv = map cext ind ++ repeat cpad0 (width - K).
 Proof.
   unfold adv, advance1. fold cs. rewrite map_length. fold K. fold ind. cbn [fst].
-  f_equal. apply map_ext_in. intros i Hi.
+  f_equal. apply map_ext_in. intros i Hi. unfold cext.
   destruct ind_facts as (_ & _ & Hlt). specialize (Hlt i Hi).
   rewrite (nth_map_lt _ _ _ dslot); [reflexivity|]. rewrite Hrow. apply div_lt_rows; lia.
 Qed.
@@ -324,14 +350,26 @@ Proof.
   - now rewrite IH.
 Qed.
 
-Lemma dec_len_eq : dec_len eos t slots adv
+Let adv' := (map (pad_row (hS b) grow) (fst adv), snd adv).
+
+Lemma map_repeat {A B} (f : A -> B) (x : A) m : map f (repeat x m) = repeat (f x) m.
+Proof. induction m; cbn; congruence. Qed.
+
+Lemma dec_len_eq : dec_len eos t slots adv'
   = map cnew ind ++ repeat cpad (width - K).
 Proof.
-  assert (Hl : length (fst adv) = length (snd adv)).
-  { rewrite adv_fst, adv_snd, !app_length, !map_length, !repeat_length. reflexivity. }
-  rewrite (dec_len_map t slots adv Hl).
-  rewrite adv_fst, adv_snd, combine_map_app, map_app, map_map. f_equal.
-  induction (width - K) as [|m IH]; [reflexivity|]. cbn [repeat map]. rewrite IH. f_equal.
+  assert (Hl : length (fst adv') = length (snd adv')).
+  { unfold adv'. cbn [fst snd]. rewrite map_length, adv_fst, adv_snd, !app_length, !map_length, !repeat_length. reflexivity. }
+  rewrite (dec_len_map t slots adv' Hl). unfold adv'. cbn [fst snd].
+  rewrite adv_fst, adv_snd, map_app, map_map, map_repeat. fold cpad.
+  rewrite combine_map_app, map_app, map_map, map_repeat. f_equal.
+  f_equal. unfold cpad. cbn [fst snd]. rewrite pad_row_len, pad_row_sc. unfold cpad0. cbn [len sc].
+  destruct (pad_row (hS b) grow {| col := repeat 0%Z (hS b + 1); len := 0; sc := None |}) as [c l s0'] eqn:E.
+  cbn [col len sc]. f_equal.
+  - pose proof (pad_row_len {| col := repeat 0%Z (hS b + 1); len := 0; sc := None |}) as H1. rewrite E in H1. cbn in H1.
+    subst l. destruct (eos_at t (nth 0 slots dslot)); reflexivity.
+  - pose proof (pad_row_sc {| col := repeat 0%Z (hS b + 1); len := 0; sc := None |}) as H1. rewrite E in H1. cbn in H1.
+    now subst s0'.
 Qed.
 
 Lemma elem_step_fst : frz && done_of t slots = false ->
